@@ -159,6 +159,17 @@ func c19FetchAll(ctx context.Context, fetcher content.Fetcher, desc ocispec.Desc
 	return n.data, nil
 }
 
+// c19Logging wraps oras' real in-memory store natively so that fetches can be observed there as well.
+type c19Logging struct {
+	*memory.Store
+	fetched []digest.Digest
+}
+
+func (l *c19Logging) Fetch(ctx context.Context, target ocispec.Descriptor) (io.ReadCloser, error) {
+	l.fetched = append(l.fetched, target.Digest)
+	return l.Store.Fetch(ctx, target)
+}
+
 // ---- harness ----------------------------------------------------------------------------------------
 
 type c19Pushed struct {
@@ -180,12 +191,27 @@ func VsymC19() {
 	ctx := context.Background()
 	var target oras.GraphTarget
 	var mem *memory.Store
+	var logging *c19Logging
 	if vr.Symbolic() {
 		c19S = &c19Store{}
 		target = c19S
 	} else {
 		mem = memory.New()
-		target = mem
+		logging = &c19Logging{Store: mem}
+		target = logging
+	}
+	fetched := func() []digest.Digest {
+		if vr.Symbolic() {
+			return c19S.fetched
+		}
+		return logging.fetched
+	}
+	resetFetched := func() {
+		if vr.Symbolic() {
+			c19S.fetched = nil
+		} else {
+			logging.fetched = nil
+		}
 	}
 	repo := NewRepository(target)
 	// inject stores a hand-built document as a node and returns its descriptor (declared size = actual unless given)
@@ -291,9 +317,16 @@ func VsymC19() {
 	}
 
 	// ---- listing ----------------------------------------------------------------------------------
+	annotated := vr.Choice("listWithAnnotatedDescriptor", 2) == 1
 	for si, subj := range subjects {
 		if si == 1 && content.Equal(subjA, subjB) {
 			continue
+		}
+		// the same artifact named by a descriptor that is content-equal but carries other annotations
+		// (a descriptor resolved from a tag carries index annotations, one resolved by digest does not)
+		if annotated {
+			subj.Annotations = map[string]string{"org.opencontainers.image.ref.name": "v1"}
+			subj.ArtifactType = "application/vnd.example"
 		}
 		var listed []ocispec.Descriptor
 		err := repo.ListSignatures(ctx, subj, func(l []ocispec.Descriptor) error {
@@ -307,10 +340,8 @@ func VsymC19() {
 		}
 		if hostile == 8 && si == 0 {
 			vr.Assert(err != nil, "an oversized referrer manifest is refused")
-			if vr.Symbolic() {
-				for _, f := range c19S.fetched {
-					vr.Assert(f != hostileDesc.Digest, "an oversized referrer manifest is refused before its content is fetched")
-				}
+			for _, f := range fetched() {
+				vr.Assert(f != hostileDesc.Digest, "an oversized referrer manifest is refused before its content is fetched")
 			}
 			vr.Reach("oversized manifest refused")
 			continue
@@ -355,9 +386,7 @@ func VsymC19() {
 		vr.Reach("round trip")
 	}
 	if hostile != 0 && hostile != 8 {
-		if vr.Symbolic() {
-			c19S.fetched = nil
-		}
+		resetFetched()
 		blob, _, err := repo.FetchSignatureBlob(ctx, hostileDesc)
 		switch hostile {
 		case 2:
@@ -367,25 +396,19 @@ func VsymC19() {
 			vr.Reach("blob count refused")
 		case 7:
 			vr.Assert(err != nil && blob == nil, "a signature blob declared larger than the cap is refused")
-			if vr.Symbolic() {
-				for _, f := range c19S.fetched {
-					vr.Assert(f != hostileBlob.Digest, "an oversized blob is refused before it is fetched")
-				}
+			for _, f := range fetched() {
+				vr.Assert(f != hostileBlob.Digest, "an oversized blob is refused before it is fetched")
 			}
 			vr.Reach("oversized blob refused")
 		}
 		_ = hostileFetchable
 	}
 	// a manifest descriptor of another media type, or oversized, is refused before any fetch
-	if vr.Symbolic() {
-		c19S.fetched = nil
-	}
+	resetFetched()
 	_, _, e1 := repo.FetchSignatureBlob(ctx, ocispec.Descriptor{MediaType: "application/vnd.oci.image.index.v1+json", Digest: subjA.Digest, Size: 10})
 	_, _, e2 := repo.FetchSignatureBlob(ctx, ocispec.Descriptor{MediaType: c19ImageMT, Digest: subjA.Digest, Size: maxManifestSizeLimit + 1})
 	vr.Assert(e1 != nil && e2 != nil, "manifest descriptors of another media type or above the cap are refused")
-	if vr.Symbolic() {
-		vr.Assert(len(c19S.fetched) == 0, "... before anything is fetched")
-	}
+	vr.Assert(len(fetched()) == 0, "... before anything is fetched")
 }
 
 func init() { vsymHarnesses["VsymC19"] = VsymC19 }
